@@ -76,6 +76,14 @@ CHECKS = {
          "For every program (every tag, all nested pairs, whitespace layouts) x option setting the template is compiled once and every history of executions is run: after each execution a reflect/unsafe deep snapshot of the whole compiled object graph (nodes, tokens, blocks, macros, set, parents, included templates) must equal the initial one, and the (output, error) pair must equal that of a freshly compiled template on the same context.",
          "Unexported package-level variables are not reachable by the snapshot (only their effect on later executions is seen); the quantifier's static clause is a different family and not covered.",
          "DESIGN.md §3 C04"),
+ "C05": ("stateless model checking of the real code under a hand-written controlled scheduler: preemption-bounded depth-first exploration of ALL schedules of 2-3 thread scenarios on the overlay-instrumented build, with a vector-clock race detector, solo-result oracle and deadlock detection",
+         "pongo2 is rebuilt through a source instrumenter (go build -overlay; /repo untouched): sync primitives report to a cooperative scheduler, every store/load of shared-reachable memory and every method call on a foreign object (bytes.Buffer ...) is hooked. For every scenario (two or three threads executing one compiled template with different contexts, executing while another thread compiles or fetches in the same set, cache operations) all schedules up to 1 (thorough 2) preemptions are executed on freshly built shared state; each thread's result must equal its solo result, no happens-before-unordered conflicting access pair may exist, no deadlock.",
+         "Sequentially consistent interleavings at the instrumented points only; accesses inside the standard library are seen only as calls on the object; the quantifier's static clause is not covered. If the instrumented build fails while /repo compiles, the check degrades (stores only, then sync shim only) and says so; it never turns a tool failure into an alarm.",
+         "DESIGN.md §3 C05"),
+ "C20": ("explicit-state exploration of all cache operation histories (depth <=5/6, two sets) against a map model, plus preemption-bounded exploration of ALL schedules of 2-3 concurrent thread programs with a brute-force linearisability check against the same model",
+         "Sequential: every history over FromCache/CleanCache/Debug/content change/failing file on two sets is replayed on real sets; error, object identity class, rendered content (version at load time, the set's own global) and fetch count of every call must match the model. Concurrent: every pair of thread programs of length <=2 (thorough: triples) under the controlled scheduler, all schedules up to 2 (3) preemptions; every schedule must be linearisable (returned identities and number of loads explained by some interleaving), race-free, deadlock-free.",
+         "Runs on the overlay-instrumented build like C05; loader Get is an I/O scheduling point.",
+         "DESIGN.md §3 C20"),
 }
 
 NOT_YET = {}
@@ -95,7 +103,7 @@ def main():
                 "quick_cmd": f"./run.sh {pid} quick",
                 "thorough_cmd": f"./run.sh {pid} thorough",
                 "evidence_file": f"/verif/evidence/{pid}.json",
-                "replay_cmd_template": "./.build/mc replay {path}",
+                "replay_cmd_template": ("./.build/mc-inst replay {path}" if pid in ("C04","C05","C20") else "./.build/mc replay {path}"),
                 "engine": "mc",
                 "level_claimed": {"category": cat, "text": text, "design_ref": ref},
                 "level_note": note,
